@@ -509,6 +509,7 @@ func runC05(args []string) int {
 			}
 			desc := c05Desc{t.String(), p.String(), len(tuples)}
 			overBudget := false
+			maxNodes := 0 // largest search tree of the Go enumeration over this case's tuples: a proxy for the Coq enumerator's cost
 			codes := map[string]int{} // tuple -> verdict code of the Go search (0 = agrees with the documented meaning)
 			nfail := 0
 			if os.Getenv("VERIF_DEBUG") != "" {
@@ -529,6 +530,9 @@ func runC05(args []string) int {
 				}
 				ss.nodes, ss.budget = 0, 200000
 				sols, ok := ss.enumerate(v, pending, 5000)
+				if ss.nodes > maxNodes {
+					maxNodes = ss.nodes
+				}
 				if ss.nodes > ss.budget {
 					rep.Count("skipped:search-budget")
 					overBudget = true
@@ -604,6 +608,15 @@ func runC05(args []string) int {
 						maxT = 6
 					}
 				}
+				if !o.Thorough() && maxNodes > 60 {
+					// expensive enumeration (many free hint wires): a spread of the tuples goes to Coq, the Go search covered all
+					if lim := 6000 / maxNodes; lim < maxT {
+						maxT = lim
+					}
+					if maxT < 6 {
+						maxT = 6
+					}
+				}
 				if len(nt) > maxT {
 					// keep a spread: boundary tuples first, then evenly spaced
 					var sel [][]int64
@@ -636,7 +649,7 @@ func runC05(args []string) int {
 		}
 	}
 	// shard the Coq cases into files evaluated in parallel
-	nshard := 8
+	nshard := 16
 	for s := 0; s < nshard; s++ {
 		var sb strings.Builder
 		sb.WriteString("From Coq Require Import ZArith List Bool.\nFrom GnarkV Require Import Base.Res CS.Solver Frontend.Spec Frontend.C05Cases.\nImport ListNotations.\n")
